@@ -34,9 +34,10 @@ CONSTANTS Slots,      \* key slots (positive integers)
           Evil,       \* the attacker's slot
           ClaimSet,   \* claims values (positive integers)
           NoteSet,    \* footer notes
+          Services,   \* the services that verify tokens (strings); they share the key store, each demands its own name as audience
           MaxNet, MaxBlobs,
           MaxClock,   \* the verifier's clock runs 0..MaxClock; a token expires ttl ticks after it was issued
-          Weaken      \* "none": the design;  "footer" | "label" | "key": the design with one guarantee of L0 withdrawn (spec/neg)
+          Weaken      \* "none": the design;  "footer" | "label" | "key" | "aud": the design with one guarantee withdrawn (spec/neg)
 
 VARIABLES gen,        \* slot -> "none" | "local" | "pair": key material that exists
           store,      \* the verifier's key store: set of [kind, key]; indexed, in the code, by the id the verifier computes
@@ -53,7 +54,8 @@ vars == <<gen, store, via, blobs, net, issued, accepted, clock, last>>
 Kinds == {"local", "public"}
 Material(kind) == IF kind = "local" THEN "local" ELSE "pair"
 StoredAs(kkind) == IF kkind = "local" THEN "local" ELSE "public"     \* a secret key is stored as its public key
-NoAcc == [kind |-> "", key |-> 0, claims |-> 0, note |-> 0]
+Auds == Services \cup {"none"}                                        \* "none": the token carries no audience claim
+NoAcc == [kind |-> "", key |-> 0, claims |-> 0, note |-> 0, aud |-> ""]
 Done(ok) == [ok |-> ok, acc |-> NoAcc]
 
 \* uniform action descriptor (the generator prints these, the trace carries them back)
@@ -121,8 +123,8 @@ Forget(kind, s) ==
 \* ---- tokens ------------------------------------------------------------------
 \* head: purpose in the header;  bkind, key, claims: what the body was sealed as / with / over;
 \* (bkk, bks, bnote): the footer the body is bound to;  (fkk, fks, fnote): the footer the token carries
-Tok(kind, s, c, n, t, e) ==
-  [head |-> kind, bkind |-> kind, key |-> s, claims |-> c, exp |-> e,
+Tok(kind, s, c, n, t, e, aud) ==
+  [head |-> kind, bkind |-> kind, key |-> s, claims |-> c, exp |-> e, aud |-> aud,
    bkk |-> kind, bks |-> t, bnote |-> n, fkk |-> kind, fks |-> t, fnote |-> n]
 
 Emit(t) ==
@@ -132,14 +134,15 @@ Emit(t) ==
   /\ UNCHANGED <<gen, store, via, blobs, accepted, clock>>
 
 \* the owner of slot s seals claims c; an honest issuer names its own key in the footer, the attacker may name slot t
-\* the claims are built with RegisteredClaims::new(now, ttl): not valid before now, expiring ttl ticks later
-Issue(s, kind, c, n, t, ttl) ==
-  /\ kind \in Kinds /\ c \in ClaimSet /\ n \in NoteSet /\ ttl \in 0..1
+\* the claims are built with RegisteredClaims::new(now, ttl): not valid before now, expiring ttl ticks later;
+\* for_audience(aud) names the service the token is meant for (or nobody)
+Issue(s, kind, c, n, t, ttl, aud) ==
+  /\ kind \in Kinds /\ c \in ClaimSet /\ n \in NoteSet /\ ttl \in 0..1 /\ aud \in Auds
   /\ gen[s] = Material(kind)
   /\ gen[t] = Material(kind)
   /\ (s # Evil => t = s)
-  /\ Emit(Tok(kind, s, c, n, t, clock + ttl))
-  /\ issued' = IF t = s THEN issued \cup {[kind |-> kind, key |-> s, claims |-> c, note |-> n]} ELSE issued
+  /\ Emit(Tok(kind, s, c, n, t, clock + ttl, aud))
+  /\ issued' = IF t = s THEN issued \cup {[kind |-> kind, key |-> s, claims |-> c, note |-> n, aud |-> aud]} ELSE issued
 
 Refoot(i, j) ==
   /\ i \in 1..Len(net) /\ j \in 1..Len(net) /\ i # j
@@ -151,18 +154,20 @@ Relabel(i) ==
   /\ Emit([net[i] EXCEPT !.head = IF @ = "local" THEN "public" ELSE "local"])
   /\ UNCHANGED issued
 
-VerifyOk(t) ==
+VerifyOk(t, who) ==
   /\ t.head = t.bkind                                            \* C10: a body is only ever opened as what it was sealed as
   /\ (Weaken = "footer" \/ <<t.fkk, t.fks, t.fnote>> = <<t.bkk, t.bks, t.bnote>>)   \* C02: the footer is authenticated
   /\ t.fkk = t.head                                              \* a lid names local keys, a pid public keys
   /\ [kind |-> t.head, key |-> t.fks] \in store                  \* C13: lookup by key id
   /\ (Weaken = "key" \/ t.key = t.fks)                          \* C02: only the sealing key opens it
   /\ t.exp >= clock                                              \* C11: Time::valid_at(now) - released only while not expired
-Verify(i) ==
-  /\ i \in 1..Len(net)
+  /\ (Weaken = "aud" \/ t.aud = who)                             \* C11: .and_then(ForAudience(who)) - a missing audience is not this service's
+\* service `who` verifies token i
+Verify(i, who) ==
+  /\ i \in 1..Len(net) /\ who \in Services
   /\ LET t == net[i]
-         a == [kind |-> t.head, key |-> t.fks, claims |-> t.claims, note |-> t.fnote] IN
-     IF VerifyOk(t)
+         a == [kind |-> t.head, key |-> t.fks, claims |-> t.claims, note |-> t.fnote, aud |-> who] IN
+     IF VerifyOk(t, who)
      THEN accepted' = accepted \cup {a} /\ last' = [ok |-> TRUE, acc |-> a]
      ELSE last' = Done(FALSE) /\ UNCHANGED accepted
   /\ UNCHANGED <<gen, store, via, blobs, net, issued, clock>>
@@ -183,11 +188,11 @@ Do(x) ==
     [] x.a = "TamperBlob" -> TamperBlob(x.i, x.k)
     [] x.a = "Import"     -> Import(x.i)
     [] x.a = "Forget"     -> Forget(x.k, x.s)
-    [] x.a = "Issue"      -> Issue(x.s, x.k, x.c, x.n, x.t, x.j)
+    [] x.a = "Issue"      -> Issue(x.s, x.k, x.c, x.n, x.t, x.j, x.u)
     [] x.a = "Tick"       -> Tick
     [] x.a = "Refoot"     -> Refoot(x.i, x.j)
     [] x.a = "Relabel"    -> Relabel(x.i)
-    [] x.a = "Verify"     -> Verify(x.i)
+    [] x.a = "Verify"     -> Verify(x.i, x.u)
     [] OTHER              -> FALSE
 
 Acts ==
@@ -198,11 +203,11 @@ Acts ==
   \cup {Act("TamperBlob", 0, h, "", i, 0, 0, 0, 0) : h \in {"flip", "relabel"}, i \in 1..MaxBlobs}
   \cup {Act("Import", 0, "", "", i, 0, 0, 0, 0) : i \in 1..MaxBlobs}
   \cup {Act("Forget", s, k, "", 0, 0, 0, 0, 0) : s \in Slots, k \in Kinds}
-  \cup {Act("Issue", s, k, "", 0, ttl, c, n, t) : s \in Slots, k \in Kinds, c \in ClaimSet, n \in NoteSet, t \in Slots, ttl \in 0..1}
+  \cup {Act("Issue", s, k, u, 0, ttl, c, n, t) : s \in Slots, k \in Kinds, c \in ClaimSet, n \in NoteSet, t \in Slots, ttl \in 0..1, u \in Auds}
   \cup {Act("Tick", 0, "", "", 0, 0, 0, 0, 0)}
   \cup {Act("Refoot", 0, "", "", i, j, 0, 0, 0) : i \in 1..MaxNet, j \in 1..MaxNet}
   \cup {Act("Relabel", 0, "", "", i, 0, 0, 0, 0) : i \in 1..MaxNet}
-  \cup {Act("Verify", 0, "", "", i, 0, 0, 0, 0) : i \in 1..MaxNet}
+  \cup {Act("Verify", 0, "", u, i, 0, 0, 0, 0) : i \in 1..MaxNet, u \in Services}
 
 Next == \E x \in Acts : Do(x)
 Spec == Init /\ [][Next]_vars
@@ -216,11 +221,11 @@ NextD ==
   \/ \E i \in 1..MaxBlobs, h \in {"flip", "relabel"} : TamperBlob(i, h)
   \/ \E i \in 1..MaxBlobs : Import(i)
   \/ \E k \in Kinds, s \in Slots : Forget(k, s)
-  \/ \E s \in Slots, k \in Kinds, c \in ClaimSet, n \in NoteSet, t \in Slots, ttl \in 0..1 : Issue(s, k, c, n, t, ttl)
+  \/ \E s \in Slots, k \in Kinds, c \in ClaimSet, n \in NoteSet, t \in Slots, ttl \in 0..1, u \in Auds : Issue(s, k, c, n, t, ttl, u)
   \/ Tick
   \/ \E i \in 1..MaxNet, j \in 1..MaxNet : Refoot(i, j)
   \/ \E i \in 1..MaxNet : Relabel(i)
-  \/ \E i \in 1..MaxNet : Verify(i)
+  \/ \E i \in 1..MaxNet, u \in Services : Verify(i, u)
 SpecD == Init /\ [][NextD]_vars
 DispatchIsDisjunction == [][NextD]_vars
 
@@ -230,10 +235,13 @@ TypeOK ==
   /\ \A e \in store : e.kind \in Kinds /\ e.key \in Slots
   /\ Len(net) <= MaxNet /\ Len(blobs) <= MaxBlobs
 
-\* a token is accepted under an honest key only if that key's owner sealed those claims with that footer note
+\* a token is accepted by a service under an honest key only if that key's owner sealed those claims with that footer note
+\* for that service
 Authentic == \A a \in accepted : a.key # Evil => a \in issued
 \* attacker tokens are accepted only as the attacker's
 EvilIsEvil == \A a \in accepted : a.key = Evil => \E t \in {net[k] : k \in 1..Len(net)} : t.key = Evil /\ t.claims = a.claims
+\* whoever sealed it, a service releases only what is addressed to it
+Addressed == \A a \in accepted : \E k \in 1..Len(net) : net[k].claims = a.claims /\ (Weaken = "aud" \/ net[k].aud = a.aud)
 \* the store maps a key id to a key of the type the id says, and only to keys that exist
 StoreTyped == \A e \in store : gen[e.key] = Material(e.kind)
 \* the attacker's keys never arrive over the pre-shared channels
